@@ -1,7 +1,7 @@
 (* Decidable comparisons used by the generated case shards (coq/Run): each case carries the inputs AND the
    observables the real code produced; [check_*] runs the model on the inputs and compares.  Trusted to
    state the comparison correctly (DESIGN.md, trusted base). *)
-From Connectome Require Import Values Attrs VM Edges Store NameSet MiscGen.
+From Connectome Require Import Values Attrs VM Edges Store NameSet MiscGen ColStore ColumnsGen Columns.
 From Connectome Require Import GraphHashModel.
 
 Definition which_eqb (a b : which) : bool := match a, b with WH, WH | WC, WC => true | _, _ => false end.
@@ -188,3 +188,47 @@ Definition check_shard (c : shcase) : nat :=
      && Nat.eqb (MiscGen.shard_count (List.length (sh_keys c)) (sh_size c)) (sh_exp_count c)
      && Nat.eqb (MiscGen.shard_idx (sh_pos c) (sh_size c)) (sh_exp_idx c)
   then 0 else 1.
+
+(* ---------- column caches (C03, C04, C07, C08): Model/Columns.v against CacheColumns on request sequences ----------
+   The harness gives the keys sorted (sorted() on ASCII strings), the integer shard size, which user functions raise
+   during the request, and what it observed: the outcome (0 the value of the uncached field, 1 a user exception,
+   2 ValueError, 3 anything else), the calls of the user functions in order and the number of disk entries afterwards. *)
+Record colreq := { cq_new : bool; cq_col : nat; cq_key : string; cq_keys : list string; cq_size : option nat;
+                   cq_fail_h : list string; cq_fail_v : list (nat * string);
+                   cq_exp : nat; cq_log : list string; cq_disk : nat }.
+
+Definition col_name (names : list string) (c : nat) : string := nth c names "?".
+Definition key_str (k : val) : string := match k with VStr s => s | _ => "?" end.
+Definition col_h (names : list string) (c : nat) (k : val) : nhash := HApply (col_name names c) [HApply "x" [HLeaf k] []] [].
+Definition col_v (names : list string) (c : nat) (k : val) : val := VApp (col_name names c) [k] [].
+Definition col_token (names : list string) (e : cevent) : list string :=
+  match e with
+  | CHash _ k => ["x:" ++ key_str k]
+  | CValue c k => [col_name names c ++ ":" ++ key_str k]
+  | CKeyReq => []
+  | CKeysReq => ["ids"]
+  end.
+Definition res_code (names : list string) (col : nat) (key : val) (r : cres) : nat :=
+  match r with
+  | COk x => if veqb x (col_v names col key) then 0 else 3
+  | CErr (EUser _) => 1
+  | CErr (EValue _) => 2
+  | CErr _ => 3
+  end.
+
+Fixpoint check_colreqs (names : list string) (st : colstore) (i : nat) (rs : list colreq) : nat :=
+  match rs with
+  | [] => 0
+  | q :: t =>
+      let st := if cq_new q then new_process st else st in
+      let key := VStr (cq_key q) in
+      let gh := fun c k => if lmem (key_str k) (cq_fail_h q) then None else Some (col_h names c k) in
+      let gv := fun c k => if existsb (fun p => Nat.eqb (fst p) c && String.eqb (snd p) (key_str k)) (cq_fail_v q) then None
+                           else Some (col_v names c k) in
+      let '(r, st', ev) := column_request hpyeq heqb pyeq (fun l => l) gh gv (cq_col q) (cq_size q) key (map VStr (cq_keys q)) st in
+      if Nat.eqb (res_code names (cq_col q) key r) (cq_exp q)
+         && list_eqb String.eqb (flat_map (col_token names) ev) (cq_log q)
+         && Nat.eqb (List.length (disk st')) (cq_disk q)
+      then check_colreqs names st' (S i) t else S i
+  end.
+Definition check_columns (c : list string * list colreq) : nat := check_colreqs (fst c) colstore0 0 (snd c).
